@@ -237,8 +237,9 @@ CLAIMS = {
     "C14": dict(
         text="The library rebuilds the order vector from the tree after every structural edit; the model defines a node's key as its "
              "position in that pre-order walk. Kernel-checked for every state: attached nodes have non-zero keys, keys are 1..n along "
-             "the walk element -> attributes -> value items -> children (strictly increasing, distinct) when ids are distinct, every "
-             "node outside the document tree has key 0. Monitor after every step of every history on the real code: order() along "
+             "the walk element -> attributes -> value items -> children (strictly increasing, distinct) when ids are distinct - and they "
+             "are distinct AT EVERY POINT OF ANY EDIT HISTORY of a parsed document (keys_after_any_history, via C12) -, every "
+             "node outside the document tree has key 0 (in particular the node removeChild hands back). Monitor after every step of every history on the real code: order() along "
              "the real walk strictly increasing and non-zero, 0 for detached nodes; 9 queries give the same answer on the edited "
              "document and on from_raw(to_string()).",
         note="The 'consequently' (query equality) is established by the monitor only, on node numbering that ignores text-node "
